@@ -19,7 +19,7 @@ ASSUMPTIONS = ["a sample's cell along a feature = number of cut points below its
 EVAL_COUNTER = "fits"
 REQUIRED = {"quick": {"fits": 250, "memberships_read_through_public_api": 3000, "masked_fits": 60, "mask_perturbations": 120,
                       "cells_compared": 1500, "active_point_queries": 4000, "active_queries_between_cuts": 300,
-                      "fits_multi_cut": 120, "cells_matched_to_leaves": 700, "integer_query_points": 3000},
+                      "fits_multi_cut": 120, "cells_matched_to_leaves": 700, "integer_query_points": 3000, "fits_on_few_valued_columns": 25},
             "thorough": {"fits": 5000, "active_point_queries": 90000}}
 SHARD_TIMEOUT = {"quick": 1200, "thorough": 7000}
 
@@ -124,6 +124,14 @@ def run_case(case, ctx, st):
         n_cuts = 2
     scale = float([1.0, 1.0, 0.2, 3.0][int(rng.integers(0, 4))])
     X = gen.make_data(rng, n, d, "blobs") * scale / 3.0
+    if rng.random() < 0.2:
+        # binary / ordinal / constant columns: fewer distinct training values than cut points on a used feature - the model
+        # still has n_cuts cut points per used feature and (n_cuts+1)^(#used) leaves
+        for f in range(d):
+            if rng.random() < 0.6:
+                levels = int(rng.integers(1, 4))
+                X[:, f] = rng.integers(0, levels, size=n).astype(float) * float(rng.choice([1.0, 0.5, 2.0]))
+        ctx.count("fits_on_few_valued_columns")
     K = int(rng.integers(2, min(4, n) + 1))
     p = {"n_clusters": K, "n_cuts": n_cuts, "temperature": float(10 ** rng.uniform(-3, 3)),
          "max_iter": int(rng.integers(1, 8)), "learning_rate": float(10 ** rng.uniform(-3, -1)),
